@@ -71,7 +71,7 @@ def run(ctx):
     ctx.cov["histories"] = nh
     ctx.cov["traces_validated_against_impl"] = nh
     import loadedworld
-    lh = loadedworld.stream(ctx, g, ctx.rng, 6 if ctx.quick else 150, 12 if ctx.quick else 30, "loaded")
+    lh = loadedworld.stream(ctx, g, ctx.rng, 6 if ctx.quick else 150, 12 if ctx.quick else 30, "loaded", what={"symbols"})
     ctx.cov["histories_continued_from_loaded_files"] = len(lh)
     ctx.cov["rule"] = ("random histories of %d steps: symbol add/remove/move, renames over 6 names incl. '' and shared ones, payload block/proxy/int(0)/None, "
                        "block and proxy moves; after every step symbols_named for every module x name and references for every block" % ln)
